@@ -64,6 +64,14 @@ class Ctx:
             gm = open(os.path.join(hdir, 'go.mod')).read()
             gm = re.sub(r'replace github.com/benhoyt/goawk => .*', f'replace github.com/benhoyt/goawk => {REPO}', gm)
             open(os.path.join(hdir, 'go.mod'), 'w').write(gm)
+            # only this property's registration is linked in, so that a package of another property
+            # (possibly being edited) cannot break this build
+            if self.pid != 'SETUP':
+                keep = {'main.go', f'reg_{self.pid.lower()}.go'} | {f'reg_{x.lower()}.go' for x in getattr(self, 'extra_props', [])}
+                rdir = os.path.join(hdir, 'cmd', 'vreplay')
+                for fn in os.listdir(rdir):
+                    if fn.startswith('reg_') and fn not in keep:
+                        os.remove(os.path.join(rdir, fn))
         out = self.path(name)
         cmd = ['go', 'build', '-tags', 'verif'] + (['-race'] if race else []) + ['-o', out, './cmd/vreplay']
         env = dict(os.environ, **GOENV)
